@@ -684,7 +684,12 @@ mod expression_parser {
     additional_preceding_comments: Vec<Comment>,
   ) -> expr::E<()> {
     let mut expr = parse_expression(parser);
-    let common = expr.common_mut();
+    if additional_preceding_comments.is_empty() {
+      return expr;
+    }
+    // The comments are printed in front of the first token of the expression. Attach them to the
+    // sub-expression that owns that token, which is where parsing the printed text puts them.
+    let common = leftmost_expression_common_mut(&mut expr);
     common.associated_comments =
       super::utils::mod_associated_comments_with_additional_preceding_comments(
         parser,
@@ -692,6 +697,16 @@ mod expression_parser {
         additional_preceding_comments,
       );
     expr
+  }
+
+  fn leftmost_expression_common_mut(e: &mut expr::E<()>) -> &mut expr::ExpressionCommon<()> {
+    match e {
+      expr::E::FieldAccess(e) => leftmost_expression_common_mut(&mut e.object),
+      expr::E::MethodAccess(e) => leftmost_expression_common_mut(&mut e.object),
+      expr::E::Call(e) => leftmost_expression_common_mut(&mut e.callee),
+      expr::E::Binary(e) => leftmost_expression_common_mut(&mut e.e1),
+      other => other.common_mut(),
+    }
   }
 
   fn parse_match(parser: &mut super::SourceParser) -> expr::E<()> {
